@@ -213,6 +213,21 @@ def run(ctx):
             rels.append(relations.relate("SameScores", roff, text, ron, text, meta={"input": name, "pdb": text}))
     finally:
         NCCG.do_prot_stat = old
+    # only the request to display alternative states may leave swapped interactions behind: any other reporting option
+    # (logging verbosity) is still "analysis on, nothing disturbed"
+    loud = [["--log-level", "DEBUG"], ["--log-level", "INFO"]] if ctx.thorough() else [["--log-level", "DEBUG"]]
+    for (name, text, opts), ron in zip(cases, runs):
+        if ron is None or ron.exc is not None or "-d" in opts:
+            continue
+        if not any(g.non_covalently_coupled_groups for c_ in ron.mol.conformation_names for g in ron.mol.conformations[c_].groups):
+            continue
+        for lo in loud:
+            rl = runner.run(text, ["-q"] + list(opts) + lo)
+            ctx.count()
+            if rl.exc is not None:
+                ctx.violation(f"on-off:exception:{' '.join(lo)}:{name}", f"{name} with {lo} raises {rl.exc!r}", {"pdb": text, "optargs": lo})
+                continue
+            rels.append(relations.relate("SameScores", ron, text, rl, text, meta={"input": name + " " + " ".join(lo), "pdb": text}))
     rv = relations.validate(ctx, rels, ["SameConfs", "SameScores"], "coupling analysis off vs on")
     for inv, lst in sorted(rv.items()):
         for rel in lst:
